@@ -33,7 +33,8 @@ def w_dbc(case):
     from fcp.error import Logger
     import fcp_dbc
 
-    r = get_fcp_from_string(case["text"], Logger({}))
+    from .impl import parse
+    r = parse(case["text"])  # a text, or a schema spread over module files
     if r.is_err():
         raise RuntimeError("schema rejected: " + repr(r.err()))
     fcp = r.unwrap()
@@ -324,6 +325,14 @@ def run(prop, tier, replay=None):
     descs = [gen_can_desc(rng, rng.choice(modes)) for _ in range(n)]
     twins = [d.permuted(rng) for d in descs] if prop == "C15" else []
     cases = [{"text": d.text()} for d in descs + twins]
+    if prop == "C14":
+        # every twelfth schema is spread over module files, and its second (namesake) module carries a CAN binding that does
+        # not fit a frame: rejected by construction, wherever the binding is declared
+        from .impl import files_text
+        tails = ["struct Big9 {\n    a @ 0: u64,\n    b @ 1: u8,\n}\nimpl can for Big9 {\n    id: 1999,\n}\n",
+                 "struct Var9 {\n    a @ 0: u8,\n    s @ 1: str,\n}\nimpl can for Var9 as Var9Frame {\n    id: 1998,\n}\n"]
+        for k in range(0, len(descs), 12):
+            cases[k] = {"text": files_text(gen.module_files(descs[k], rng, tail_module=rng.choice(tails))), "must_reject": True}
     ires = run_cases("harness.dbc", "w_dbc", cases, timeout_s=60)
     lcases = []
     idx = []
@@ -351,6 +360,14 @@ def run(prop, tier, replay=None):
         rep.hist("outcome", "raised:" + io["raised"]["exc"] if "raised" in io else "files")
         rep.hist("model_outcome", m.get("err", "ok"))
         # ---- rejection (C14) / success (C05)
+        if cases[k].get("must_reject"):
+            rep.hist("module_files_with_an_unfit_binding", "rejected" if "raised" in io else "NOT rejected")
+            if "raised" not in io:
+                rep.cov["disagreements_checked"] += 1
+                rep.violation(dict(base, kind="not-rejected-by-construction", files=cases[k]["text"][:3000],
+                                   what="a module of the schema declares a CAN binding that does not fit a frame (wider than 64 "
+                                        "bits / variable size), but DBC generation succeeded"))
+                continue
         if "err" in m:
             if "raised" not in io:
                 rep.cov["disagreements_checked"] += 1
@@ -631,6 +648,12 @@ def check_c_command(rep, rng, tier, descs, cases, mres):
             continue
         o = r["ok"]
         base["result"] = o["result"]
+        if cases[k].get("must_reject") and o["result"].get("ok") is True:
+            rep.cov["disagreements_checked"] += 1
+            rep.violation(dict(base, kind="c-not-rejected-by-construction", files=cases[k]["text"][:3000],
+                               what="a module of the schema declares a CAN binding that does not fit a frame, but the C generation "
+                                    "command succeeded"))
+            continue
         if m.get("err") in ("tooBig", "noLayout"):
             if o["result"].get("ok") is True:
                 rep.cov["disagreements_checked"] += 1
